@@ -151,6 +151,7 @@ Proof.
     + destruct Ev as [_ ->]. intros e' [<-|[<-|[]]]; simpl; auto.
   - inv A. intros e [].
   - des A. inv A. intros e [].
+  - des A. inv A. intros e [].
 Qed.
 
 (* the observed external height is the height carried by the last accepted event, nothing else *)
@@ -177,6 +178,7 @@ Proof.
     exists h. repeat split; auto.
   - left. destruct (exec_result_spec _ _ _ _ A) as (n & ok & c & _ & _ & _ & _ & _ & _ & _ & _ & _ & _ & Eo & Ev). auto.
   - left. inv A. reflexivity.
+  - left. des A. inv A. reflexivity.
   - left. des A. inv A. reflexivity.
 Qed.
 
